@@ -18,7 +18,9 @@ import (
 	"seehuhn.de/go/sfnt/glyph"
 	"seehuhn.de/go/sfnt/opentype/gtab"
 	"seehuhn.de/go/sfnt/opentype/gtab/builder"
+	"verif/harness/fontcmp"
 	genfont "verif/harness/gen/font"
+	"verif/harness/gen/lookups"
 	"verif/harness/guard"
 	"verif/harness/stats"
 )
@@ -189,6 +191,56 @@ func run(f *sfnt.Font, o op) (res string) {
 	return res
 }
 
+// deepen adds to the font's GSUB table a contextual lookup that calls, several
+// times, a second contextual lookup with many nested actions, so that one
+// match needs more nested actions than the engine's budget: the engine then
+// has to drop pending actions, which live in the lookup list that all
+// layouters of the font share.  The lookup is reachable from every feature.
+func deepen(t *rapid.T, f *sfnt.Font) {
+	n := f.NumGlyphs()
+	all := make([]glyph.ID, n)
+	next := make([]glyph.ID, n)
+	for i := range all {
+		all[i] = glyph.ID(i)
+		next[i] = glyph.ID((i + 1) % n)
+	}
+	if f.Gsub == nil {
+		f.Gsub = &gtab.Info{ScriptList: gtab.ScriptListInfo{}}
+	}
+	info := f.Gsub
+	base := gtab.LookupIndex(len(info.LookupList))
+	rules := func(k int, target gtab.LookupIndex) [][]*gtab.SeqRule {
+		res := make([][]*gtab.SeqRule, n)
+		for i := range res {
+			var actions []gtab.SeqLookup
+			for j := 0; j < k; j++ {
+				actions = append(actions, gtab.SeqLookup{SequenceIndex: 0, LookupListIndex: target})
+			}
+			res[i] = []*gtab.SeqRule{{Actions: actions}}
+		}
+		return res
+	}
+	outer := rapid.IntRange(2, 4).Draw(t, "deepOuter")
+	inner := rapid.IntRange(22, 40).Draw(t, "deepInner")
+	info.LookupList = append(info.LookupList,
+		&gtab.LookupTable{Meta: &gtab.LookupMetaInfo{LookupType: 5}, Subtables: []gtab.Subtable{
+			&gtab.SeqContext1{Cov: lookups.CovTable(all), Rules: rules(outer, base+1)}}},
+		&gtab.LookupTable{Meta: &gtab.LookupMetaInfo{LookupType: 5}, Subtables: []gtab.Subtable{
+			&gtab.SeqContext1{Cov: lookups.CovTable(all), Rules: rules(inner, base+2)}}},
+		&gtab.LookupTable{Meta: &gtab.LookupMetaInfo{LookupType: 1}, Subtables: []gtab.Subtable{
+			&gtab.Gsub1_2{Cov: lookups.CovTable(all), SubstituteGlyphIDs: next}}},
+	)
+	if len(info.FeatureList) == 0 {
+		info.FeatureList = gtab.FeatureListInfo{{Tag: "liga"}}
+	}
+	for _, ft := range info.FeatureList {
+		ft.Lookups = append(ft.Lookups, base)
+	}
+	if len(info.ScriptList) == 0 {
+		info.ScriptList[language.Und] = &gtab.Features{Required: 0}
+	}
+}
+
 func TestC16Schedules(t *testing.T) { schedules(t, false) }
 
 // TestC16ColdStart runs the concurrent phase BEFORE the sequential reference
@@ -212,6 +264,14 @@ func schedules(t *testing.T, cold bool) {
 		}
 		c := genfont.Gen(genfont.Opts{MaxGlyphs: 24, MinGlyphs: 2, Layout: layout}).Draw(t, "font")
 		f := c.Font
+		deep := false
+		if layout == genfont.LayoutAll && rapid.IntRange(0, 2).Draw(t, "deepNesting") == 0 {
+			deepen(t, f)
+			deep = true
+		}
+		// the layout tables as they are before any operation has run (a
+		// reflective dump: it does not touch the library's own lazy state)
+		layout0 := fontcmp.Dump(f.Gsub) + fontcmp.Dump(f.Gpos) + fontcmp.Dump(f.Gdef)
 		ng := rapid.IntRange(2, 16).Draw(t, "goroutines")
 		procs := rapid.SampledFrom([]int{2, 4, 16}).Draw(t, "gomaxprocs")
 		plans := make([][]op, ng)
@@ -284,17 +344,24 @@ func schedules(t *testing.T, cold bool) {
 				if got[i][j] != want[i][j] {
 					// Is the operation non-deterministic even when run alone?  That
 					// is a defect of another property (C15/C20), not of concurrent use.
-					alone := false
-					for k := 0; k < 40 && !alone; k++ {
-						alone = run(f, plans[i][j]) == got[i][j]
+					// (Only if both results keep occurring when it runs alone: if the
+					// sequential result never comes back, the shared font has changed.)
+					sawGot, sawWant := false, false
+					for k := 0; k < 60 && !(sawGot && sawWant); k++ {
+						r := run(f, plans[i][j])
+						sawGot = sawGot || r == got[i][j]
+						sawWant = sawWant || r == want[i][j]
 					}
-					if alone {
+					if sawGot && sawWant {
 						stats.Label(sub, "nondeterministic-alone:"+plans[i][j].Name)
 						continue
 					}
 					t.Fatalf("goroutine %d op %s: concurrent result differs from sequential result\n  concurrent: %.300s\n  sequential: %.300s\n%s", i, plans[i][j], got[i][j], want[i][j], hist.String())
 				}
 			}
+		}
+		if l := fontcmp.Dump(f.Gsub) + fontcmp.Dump(f.Gpos) + fontcmp.Dump(f.Gdef); l != layout0 {
+			t.Fatalf("the shared font's layout tables were modified by read-only operations\n%s", hist.String())
 		}
 		var snap2 bytes.Buffer
 		f.Write(&snap2)
@@ -314,6 +381,6 @@ func schedules(t *testing.T, cold bool) {
 			}
 		}
 		stats.CaseIn(sub, stats.Hash(hist.String()), writers >= 2, func() string { return hist.String() },
-			fmt.Sprintf("goroutines-%d", ng), fmt.Sprintf("gomaxprocs-%d", procs), "kind-"+c.Kind.String())
+			fmt.Sprintf("goroutines-%d", ng), fmt.Sprintf("gomaxprocs-%d", procs), "kind-"+c.Kind.String(), fmt.Sprintf("deep-nesting-%v", deep))
 	})
 }
